@@ -247,4 +247,30 @@ theorem rangeFile_parts (q : Qty) (w d : Nat) (rs : List Rng) (hd : d ≤ 255) (
     rw [List.append_assoc, List.drop_left' hl, hwl]
     exact List.take_left' hlen
 
+theorem stCards_noEnd (w d1 d2 : Nat) : NoEnd (stCards w d1 d2) := by
+  unfold stCards
+  intro c hc
+  simp only [List.mem_cons, List.not_mem_nil, or_false] at hc
+  rcases hc with rfl | rfl | rfl | rfl | rfl | rfl | rfl | rfl | rfl <;> (rw [cardFree_take4 _ _ rfl]; decide)
+
+/-- The header values of a written ST file are read back. -/
+theorem decodeHdrST_written (w d1 d2 n : Nat) (h1 : d1 ≤ 255) (h2 : d2 ≤ 255) (hw : w / 8 < 10 ^ 20) (hn : n < 10 ^ 20) :
+    decodeHdrST (block (tableCardsOf w n (stCards w d1 d2))) =
+      some (w / 8, n, ['T', 'I', 'M', 'E', '.', 'S', 'P', 'A', 'C', 'E'], ['R', 'A', 'N', 'G', 'E'], d1, d2, tform w) := by
+  unfold decodeHdrST
+  rw [scan_table w n (stCards w d1 d2) (stCards_80 w d1 d2 h1 h2) (by simp [stCards]) (stCards_noEnd w d1 d2) hw hn]
+  have hs1 : (showNat d1).length ≤ 69 := by have := showNat_length 2 d1 (by omega); omega
+  have hs2 : (showNat d2).length ≤ 69 := by have := showNat_length 2 d2 (by omega); omega
+  simp (config := { decide := true }) only [fixedCards, stCards, ↓reduceIte, List.cons_append, List.nil_append, findCard,
+    cardFree_take8, cardFixed_take8, List.length_cons, List.length_nil, Option.bind_some, Option.bind_eq_bind,
+    readUint_cardFixed ['N', 'A', 'X', 'I', 'S', '1', ' ', ' '] _ rfl (showNat_length 19 _ hw),
+    readUint_cardFixed ['N', 'A', 'X', 'I', 'S', '2', ' ', ' '] _ rfl (showNat_length 19 _ hn)]
+  have r1 : readStr (cardFree ['M', 'O', 'C', 'D', 'I', 'M', ' ', ' '] (quoted ['T', 'I', 'M', 'E', '.', 'S', 'P', 'A', 'C', 'E']))
+      = some ['T', 'I', 'M', 'E', '.', 'S', 'P', 'A', 'C', 'E'] := by decide
+  have r2 : readStr (cardFree ['O', 'R', 'D', 'E', 'R', 'I', 'N', 'G'] (quoted ['R', 'A', 'N', 'G', 'E'])) = some ['R', 'A', 'N', 'G', 'E'] := by decide
+  simp (config := { decide := true }) only [r1, r2, Option.bind_some, ↓reduceIte,
+    readUint_cardFree ['M', 'O', 'C', 'O', 'R', 'D', '_', 'T'] d1 rfl hs1,
+    readUint_cardFree ['M', 'O', 'C', 'O', 'R', 'D', '_', 'S'] d2 rfl hs2, readStr_tform]
+  rfl
+
 end Moc.Fits
